@@ -4,6 +4,7 @@ import SpoxModel.Model.Attr
 import SpoxModel.Model.Embed
 import SpoxModel.Model.AttrRef
 import SpoxModel.Model.VarFields
+import SpoxModel.Model.InitTable
 import SpoxModel.Generated.Capture
 /-! Line-protocol handler for C10: run `fromArray` / `toArray` / `construct` / the heap model on the
     request and report everything (the harness compares with the real code, field by field). -/
@@ -250,6 +251,30 @@ def handleE (req : Json) : Except String Json := do
     let st := capture mode h a
     return Json.mkObj [("at_call", toJson (observe h st)), ("after", toJson (observe (mutate h muts) st)),
       ("safe", toJson (safe mode a.kind))]
+  | "inits" =>
+    -- nodes: {"k": "arg"|"init"|"other", "var": n, "arr": <arr>|null}; names: per var id
+    let parseNode (j : Json) : Except String InitTable.Node := do
+      let k ← j.getObjValAs? String "k"
+      match k with
+      | "other" => pure .other
+      | _ =>
+        let v ← j.getObjValAs? Nat "var"
+        let arr ← match j.getObjVal? "arr" with
+          | .ok Json.null => pure none
+          | .ok aj => do pure (some (← parseArr aj))
+          | .error _ => pure none
+        match k, arr with
+        | "arg", a => pure (.arg v a)
+        | "init", some a => pure (.init v a)
+        | _, _ => throw "init without array"
+    let argsJ ← req.getObjValAs? (Array Json) "args"
+    let ownJ ← req.getObjValAs? (Array Json) "own"
+    let args ← argsJ.toList.mapM parseNode
+    let own ← ownJ.toList.mapM parseNode
+    let namesJ ← req.getObjValAs? (Array String) "names"
+    let name : Nat → String := fun v => namesJ.toList.getD v ""
+    return Json.mkObj [("emitted", optJson (fun ts => Json.arr (ts.map protoJson).toArray) (InitTable.emit q name args own)),
+      ("bearing", toJson ((InitTable.bearing args own).map (·.1)))]
   | "embed" =>
     let fn ← req.getObjValAs? String "fn"
     let vj ← req.getObjVal? "val"
